@@ -154,7 +154,7 @@ def ob_projection(mesh, space_spec, vectorized):
     dim = space.codomain_dimension
 
     def F(x, n, d, k):
-        return S.fn("F%d" % k, list(x) + list(n) + [int(d)], None)
+        return S.fn("F%d" % k, list(x) + list(n) + [int(d)], lambda *a, _k=k: 0.3 + _k + sum((0.7 + 0.31 * i) * complex(v).real for i, v in enumerate(a)))
 
     if vectorized:
         def fun(x, n, domain_index, res, parameters):
@@ -373,6 +373,20 @@ def ob_function_roundtrip(gridname, jit):
         if e > 1e-12:
             return violated("projecting an affine function with the %s callable returns coefficients off by %.2e" % (name, e), witness={"flavour": name},
                             signature="roundtrip/" + name, replay={"callable": "checks.c13:replay_roundtrip", "kwargs": {"gridname": gridname, "jit": jit}, "confirmed": True})
+    # a segment space whose support is not a leading block of elements (position in support_elements != element number)
+    doms = sorted(set(int(d) for d in g.domain_indices))
+    dseg = api.function_space(g, "DP", 1, segments=[doms[1]])
+    ex_seg = np.zeros(dseg.global_dof_count)
+    for E in dseg.support_elements:
+        for i in range(3):
+            ex_seg[dseg.local2global[E, i]] = a @ g.vertices[:, g.elements[i, E]] + b
+    for name, fun, scale in flavours:
+        e = Z.relerr(api.GridFunction(dseg, fun=fun, parameters=par).coefficients, scale * ex_seg)
+        worst = max(worst, e)
+        if e > 1e-12:
+            return violated("projecting an affine function onto DP1 on segment %d (elements %s) with the %s callable returns coefficients off by %.2e"
+                            % (doms[1], [int(x) for x in dseg.support_elements], name, e), witness={"flavour": name, "segment": doms[1]},
+                            signature="roundtrip-segment/" + name, replay={"callable": "checks.c13:replay_roundtrip", "kwargs": {"gridname": gridname, "jit": jit}, "confirmed": True})
     gfp = api.GridFunction(p1, fun=f_par, parameters=par, function_parameters=np.array([2.5]))
     if Z.relerr(gfp.coefficients, 2.5 * exact) > 1e-12:
         return violated("parameterised callable: coefficients off", signature="roundtrip/parameterised", replay={"confirmed": True})
@@ -441,7 +455,10 @@ def main():
             run.add("sparse.identity[%s %s%d%s x %s%d%s]" % (mesh, ts[0], ts[1], sorted(ts[2]), rs[0], rs[1], sorted(rs[2])), "post", ob_sparse, "identity", mesh, ts, rs)
         for ts, rs in ((P1B, P1B), (DP1, P1B), (seg, P1B)):
             run.add("sparse.laplace_beltrami[%s %s%d%s x %s%d]" % (mesh, ts[0], ts[1], sorted(ts[2]), rs[0], rs[1]), "post", ob_sparse, "laplace_beltrami", mesh, ts, rs)
-    for sp in (P1B, DP0, DP1, RWGB, SNCB, seg, ("RWG", 0, {"segments": [1, 2]})):
+    # segment spaces whose support is not a leading block of elements: position in support_elements != element number
+    inner = [("DP", 0, {"segments": [2]}), ("DP", 1, {"segments": [2]}), ("P", 1, {"segments": [2], "include_boundary_dofs": True}),
+             ("RWG", 0, {"segments": [2], "include_boundary_dofs": True})]
+    for sp in [P1B, DP0, DP1, RWGB, SNCB, seg, ("RWG", 0, {"segments": [1, 2]})] + inner:
         for what in ("evaluate", "integrate", "centers", "vertices"):
             run.add("GridFunction.%s[tetra %s%d%s]" % (what, sp[0], sp[1], sorted(sp[2])), "post", ob_gridfunction, "tetra", sp, what)
         for vec in (True, False):
